@@ -66,6 +66,7 @@ def run(chk):
     chk.rule("R5", "sign analysis: Polars emulation of truncating // and % yields sign(lhs)*sign(rhs) resp. sign(lhs)")
     chk.rule("R7", "SQL implementations of string-valued operators return a typed expression (an untyped func.X(..) makes `+` render as numeric addition instead of ||)")
     chk.rule("R8v", "Polars is_in interpreted to a term and evaluated for every valuation of (x, candidates) over {null,1,2} against the documented (x == v1) | (x == v2) | ..")
+    chk.rule("R9v", "operator dispatch interpreted on a stub hierarchy of back ends (two siblings, one derived), calls interleaved in one world: every back end gets the implementation of the nearest class of its own hierarchy, never a sibling's, whatever was resolved before; unimplemented operators are refused")
     chk.rule("R6v", "SQLite emulations of horizontal max / min and clip: interpreted to SQL terms and evaluated for every valuation of 1-4 arguments over {NULL,1,2,3} against the documented result")
     chk.rule("R6", "nullness analysis: horizontal min / max emulations on strict engines return NULL iff all arguments are NULL")
 
@@ -300,6 +301,22 @@ def run(chk):
     except (polsim.Unknown, AnalysisError, SymbolicBranch) as e:
         chk.undecided.append(f"R8v: the Polars is_in implementation could not be evaluated ({str(e)[:140]})")
     chk.trusted.append("polsim.poleval: null semantics of ==, |, any_horizontal (Kleene), is_in (a null candidate never matches, null input gives null)")
+
+    # ---- R9v dispatch isolation: every back end runs the implementation of its own class hierarchy
+    from .. import dispatchsim
+    from ..interp import PyRaise as _PR9
+
+    tim = repo.mod("backend.table_impl")
+    gi = tim.func("TableImpl.get_impl")
+    try:
+        res_d = dispatchsim.isolation_scenarios(repo)
+        for desc, ok_, detail in res_d:
+            chk.ob("R9v", tim, gi, f"get_impl interpreted: {desc}", ok_, detail)
+        chk.floor("R9v", "dispatch scenarios", len(res_d), 20)
+    except (AnalysisError, SymbolicBranch, KeyError) as e:
+        chk.undecided.append(f"R9v: TableImpl.get_impl could not be interpreted on the stub hierarchy ({str(e)[:140]})")
+    except _PR9 as p_:
+        chk.ob("R9v", tim, gi, "TableImpl.get_impl on the stub hierarchy", False, f"setting up the stub back ends raises {p_.name}: {p_.msg}")
 
     chk.assumptions += [
         "Polars and SQLAlchemy overload the Python operators homomorphically (x + y builds an addition)",
